@@ -3,7 +3,7 @@ import KyberModel.Proto.Dkg
 /-
 Handler `dkg <cfg> <call> …` : one Pedersen DKG node (C11), run through a sequence of calls.
 
-cfg  : `q;old;new;thr;oldThr;fast;nonce;resharing;canIssue;canReceive;oidx;nidx;oldT;newT;dpriv;olddpub;fixLeaving`
+cfg  : `q;old;new;thr;oldThr;fast;nonce;resharing;canIssue;canReceive;oidx;nidx;oldT;newT;dpriv;olddpub;fixLeaving;fixPhase`
        node lists `idx.pub,idx.pub,…`, number lists `a,b,…` (`-` empty), everything hex, booleans 0/1
 calls: `D`                         Deals()
        `PD:<b>|<b>…`               ProcessDeals, b = `dealer/sid/pub,…/idx.opens.value~…`
@@ -30,11 +30,11 @@ private def parseNodes (s : String) : Option (List NodeId) :=
 
 private def parseCfg (s : String) : Option Cfg :=
   match s.splitOn ";" with
-  | [q, old, new, thr, othr, fast, nonce, resh, ci, cr, oidx, nidx, oldT, newT, dpriv, olddpub, fl] => do
+  | [q, old, new, thr, othr, fast, nonce, resh, ci, cr, oidx, nidx, oldT, newT, dpriv, olddpub, fl, fp] => do
     pure { q := (← hexN q), oldNodes := (← parseNodes old), newNodes := (← parseNodes new), threshold := (← hexN thr),
            oldThreshold := (← hexN othr), fastSync := (← b01 fast), nonce := (← hexN nonce), isResharing := (← b01 resh),
            canIssue := (← b01 ci), canReceive := (← b01 cr), oidx := (← hexN oidx), nidx := (← hexN nidx),
-           oldT := (← hexN oldT), newT := (← hexN newT), dpriv := (← hexNList dpriv), olddpub := (← hexNList olddpub), fixLeaving := (← b01 fl) }
+           oldT := (← hexN oldT), newT := (← hexN newT), dpriv := (← hexNList dpriv), olddpub := (← hexNList olddpub), fixLeaving := (← b01 fl), fixPhase := (← b01 fp) }
   | _ => none
 
 private def parseDealBundle (s : String) : Option DealBundle :=
